@@ -576,6 +576,148 @@ func c06Sess6(f []string) string {
 	return strings.Join(parts, " | ")
 }
 
+// LCP inside a real PPPoE session: initPPP + up() (fresh) or installInMemoryState (restored); "e<id>" = the
+// subscriber proposes exactly the Magic-Number option our last Configure-Request carried.
+func c06SessL(f []string) string {
+	ifMgr := ifmgr.New()
+	ifMgr.Add(&ifmgr.Interface{SwIfIndex: 10, SupSwIfIndex: 2, Name: "TenGigE0/0.100", Type: ifmgr.IfTypeSub, OuterVlanID: 100})
+	ifMgr.Add(&ifmgr.Interface{SwIfIndex: 2, Name: "TenGigE0/0", Type: ifmgr.IfTypeHardware, MAC: []byte{0x52, 0x54, 0x00, 0x11, 0x22, 0x33}})
+	bus := &c06Bus{}
+	c := &Component{
+		Base:     component.NewBase("pppoe-verif"),
+		logger:   logger.NewTest(),
+		eventBus: bus,
+		ifMgr:    ifMgr,
+		cfgMgr:   &c06CfgMgr{cfg: &config.Config{}},
+	}
+	s := &SessionState{
+		component:      c,
+		SessionID:      "s1",
+		PPPoESessionID: 7,
+		MAC:            net.HardwareAddr{0xaa, 0x42, 0xa1, 0x0a, 0x54, 0x97},
+		OuterVLAN:      100,
+		EncapIfIndex:   10,
+		Username:       "u",
+		Attributes:     map[string]string{},
+	}
+	if strings.HasPrefix(f[0], "restore:") {
+		c.sessions = map[string]*SessionState{}
+		c.sidIndex = map[uint16]*SessionState{}
+		c.sessionIDIndex = map[string]*SessionState{}
+		c.acctSessionIndex = map[string]*SessionState{}
+		c.usernameIndex = map[string]*SessionState{}
+		c.ipv4Index = map[string]*SessionState{}
+		c.ipv6Index = map[string]*SessionState{}
+		s.component = nil
+		s.IPv4Address = net.IPv4(10, 0, 0, 5)
+		s.Phase = ppp.PhaseOpen
+		s.LCPMagic = binary.BigEndian.Uint32(c06Bytes(f[0][len("restore:"):]))
+		c.installInMemoryState(s)
+	} else {
+		s.initPPP()
+		s.up()
+	}
+	defer func() {
+		s.stopCHAPRetryTimer()
+		s.ipcp.FSM().Kill()
+		s.ipv6cp.FSM().Kill()
+		s.lcp.FSM().Kill()
+	}()
+	var lastReq *c06Pkt
+	show := func() string {
+		var acts []string
+		for i := range bus.lcp {
+			p := bus.lcp[i]
+			switch p.code {
+			case ppp.ConfReq:
+				lastReq = &bus.lcp[i]
+				acts = append(acts, "scr:"+c06ShowWire(p.data))
+			case ppp.ConfAck:
+				acts = append(acts, fmt.Sprintf("sca:%d:%s", p.id, c06ShowWire(p.data)))
+			case ppp.ConfNak:
+				// suggested values are the implementation's choice: projected when admissible
+				var parts []string
+				ok := len(p.data) > 0
+				d := p.data
+				for j := 0; ok && j < len(d); {
+					if j+2 > len(d) || int(d[j+1]) < 2 || j+int(d[j+1]) > len(d) {
+						ok = false
+						break
+					}
+					v := d[j+2 : j+int(d[j+1])]
+					switch {
+					case d[j] == 5 && len(v) == 4 && binary.BigEndian.Uint32(v) != 0:
+					case d[j] == 1 && len(v) == 2 && binary.BigEndian.Uint16(v) >= 64:
+					case d[j] == 3 && (string(v) == "\xc0\x23" || string(v) == "\xc2\x23\x05"):
+					default:
+						ok = false
+					}
+					parts = append(parts, strconv.Itoa(int(d[j]))+".S")
+					j += int(d[j+1])
+				}
+				if ok {
+					acts = append(acts, fmt.Sprintf("scn:%d:%s", p.id, strings.Join(parts, ",")))
+				} else {
+					acts = append(acts, fmt.Sprintf("scn:%d:%s", p.id, c06ShowWire(p.data)))
+				}
+			case ppp.ConfRej:
+				acts = append(acts, fmt.Sprintf("scj:%d:%s", p.id, c06ShowWire(p.data)))
+			case ppp.TermAck:
+				acts = append(acts, fmt.Sprintf("sta:%d", p.id))
+			default:
+				// Echo, CHAP etc. are not LCP configure traffic
+			}
+		}
+		bus.lcp = nil
+		a := "-"
+		if len(acts) > 0 {
+			a = strings.Join(acts, " ")
+		}
+		up := 0
+		if s.lcp.FSM().State() == ppp.Opened {
+			up = 1
+		}
+		return fmt.Sprintf("%s up=%d lm=%08x", a, up, s.lcp.LocalConfig().Magic)
+	}
+	parts := []string{show()}
+	for _, ev := range f[1:] {
+		if s.linkEnded {
+			parts = append(parts, "ended")
+			continue
+		}
+		var rid uint8
+		var rdata []byte
+		if lastReq != nil {
+			rid, rdata = lastReq.id, lastReq.data
+		}
+		switch ev[0] {
+		case 'q':
+			i := strings.IndexByte(ev, '.')
+			id, _ := strconv.Atoi(ev[1:i])
+			s.lcp.FSM().Input(ppp.ConfReq, uint8(id), c06Bytes(ev[i+1:]))
+		case 'e':
+			id, _ := strconv.Atoi(ev[1:])
+			var m []byte
+			for j := 0; j+1 < len(rdata) && int(rdata[j+1]) >= 2 && j+int(rdata[j+1]) <= len(rdata); j += int(rdata[j+1]) {
+				if rdata[j] == 5 {
+					m = append(m, rdata[j:j+int(rdata[j+1])]...)
+				}
+			}
+			s.lcp.FSM().Input(ppp.ConfReq, uint8(id), m)
+		case 'k':
+			s.lcp.FSM().Input(ppp.ConfAck, rid, rdata)
+		case 'n':
+			s.lcp.FSM().Input(ppp.ConfNak, rid, c06Bytes(ev[1:]))
+		case 'j':
+			s.lcp.FSM().Input(ppp.ConfRej, rid, c06Bytes(ev[1:]))
+		default:
+			return "badevent"
+		}
+		parts = append(parts, show())
+	}
+	return strings.Join(parts, " | ")
+}
+
 func c06Case(line string) (out string) {
 	defer func() {
 		if r := recover(); r != nil {
@@ -589,6 +731,9 @@ func c06Case(line string) (out string) {
 	f := strings.Fields(line)
 	if len(f) >= 2 && f[0] == "s6" {
 		return c06Sess6(f[1:])
+	}
+	if len(f) >= 2 && f[0] == "sl" {
+		return c06SessL(f[1:])
 	}
 	if len(f) < 2 || f[0] != "sess" {
 		return "badline"
